@@ -38,8 +38,12 @@ def one(e):
             return e, "N/A " + why, {}
         tests = "?"
         if "--no-tests" not in sys.argv:
-            p = subprocess.run(["/venv/bin/python", "-m", "pytest", "-q", "-p", "no:cacheprovider", "-x"], cwd=d, stdout=subprocess.PIPE, stderr=subprocess.STDOUT, text=True)
-            tests = "tests-pass" if p.returncode == 0 else "TESTS-FAIL"
+            try:
+                p = subprocess.run(["timeout", "-k", "5", "120", "/venv/bin/python", "-m", "pytest", "-q", "-p", "no:cacheprovider", "-x"], cwd=d,
+                                   stdout=subprocess.PIPE, stderr=subprocess.STDOUT, text=True)
+                tests = "tests-pass" if p.returncode == 0 else ("TESTS-HANG" if p.returncode in (124, 137) else "TESTS-FAIL")
+            except Exception:
+                tests = "TESTS-ERR"
         res = {}
         for pid in e["pids"]:
             res[pid] = runner._run_check(pid, d)
